@@ -711,20 +711,27 @@ func c14Space(rep *vlib.Report, mode string) {
 					if cause == "space-held-by-reservations" {
 						// splice: the chunks are uploaded first (they fit), then the space is taken
 						if strings.HasPrefix(path, "splice") {
-							u2 := u
-							u2.path = "batch"
 							for _, c := range chunks {
 								f.upload(upReq{path: "batch", hash: vlib.Sha(c), size: int64(len(c)), wire: c, abortAfter: -1})
 							}
-							_ = u2
+							u.noChunkUp = true
 						}
 						f.settle()
-						_, _, _, _ = f.cache.Stats()
 						st := disk.VfSnapshot(f.cache)
 						// reservations cannot be evicted, entries can: hold everything but
 						// 8 KiB (with a hard limit, which refuses before evicting, everything
 						// up to one block below the limit)
 						held = max - st.Reserved - 8192
+						if strings.HasPrefix(path, "splice") {
+							// keep the (most recently used) chunks resident: the reservation may evict everything else
+							seen := map[string]bool{}
+							for _, c := range chunks {
+								if h := vlib.Sha(c); !seen[h] {
+									seen[h] = true
+									held -= (int64(len(c)) + 2*4096 - 1) / 4096 * 4096
+								}
+							}
+						}
 						if hard > 0 && st.CurrentSize+st.QueuedBytes+held > hard-4096 {
 							held = hard - 4096 - st.CurrentSize - st.QueuedBytes
 						}
